@@ -86,8 +86,13 @@ def c11_case(ctx: Ctx, case: dict):
         return
     lay0 = b0.layout
     pts = case.get("points") or ns.points_for(ctx, rm, ctx.n(3, 5), dts=(0.01, 0.1))
+    n_regular = len(pts) if not case.get("points") else 0
     pts = list(pts) + oracle.boundary_points(rm, pts[0]) if pts else pts
     for pi, pt in enumerate(pts):
+        # samples placed on (or right beside) the boundary of a comparison: the rate is discontinuous there, its
+        # linearisation is not defined and two equivalent texts may legitimately take different one-sided derivatives:
+        # the Rush-Larsen step is compared at regular samples only (rhs, monitors and the Euler step everywhere)
+        on_boundary = pi >= n_regular
         us = rm.usable(pt, ctx.seed * 1000 + pi)
         if us is None:
             continue
@@ -96,6 +101,8 @@ def c11_case(ctx: Ctx, case: dict):
         s1 = np.array([pt[n] for n, _ in sorted(mod1.state.items(), key=lambda kv: kv[1])])
         p1 = np.array([pt[n] for n, _ in sorted(mod1.parameter.items(), key=lambda kv: kv[1])])
         for fn, order in (("rhs", "tsp"), ("monitor_values", "tsp"), ("explicit_euler", "stdp"), ("generalized_rush_larsen", "stdp")):
+            if fn == "generalized_rush_larsen" and on_boundary:
+                continue
             try:
                 r0 = np.asarray(oracle.call_py(getattr(b0.mod, fn), order, states=s0, t=pt["t"], dt=pt["dt"], parameters=p0))
                 r1 = np.asarray(oracle.call_py(getattr(mod1, fn), order, states=s1, t=pt["t"], dt=pt["dt"], parameters=p1))
